@@ -215,7 +215,7 @@ def canonical : StepFacts :=
 
 /-- Every gate of the puller's step list is passed. -/
 def good (env : Env) (p : Puller) : Bool :=
-  env.copyOk && env.renameOk &&
+  env.copyOk && env.renameOk && env.syncOk &&
   (match p with
     | .file | .beveZst | .beve => env.lastSeen
     | .trailer => env.trailerOk && env.verifyOk
@@ -238,9 +238,9 @@ theorem interp_bad (env : Env) (p : Puller) (h : good env p = false) :
     Op.create ∉ (interp env false (canonical.of p)).ops.tail := by
   cases p <;>
     cases h1 : env.copyOk <;> cases h2 : env.renameOk <;> cases h3 : env.lastSeen <;>
-    cases h4 : env.trailerOk <;> cases h5 : env.verifyOk <;> cases h6 : env.pullOk <;>
-    simp [good, h1, h2, h3, h4, h5, h6] at h <;>
-    simp [canonical, StepFacts.of, interp, Run.pre, cleanup, h1, h2, h3, h4, h5, h6, List.getLast?_append, List.getLast?_cons]
+    cases h4 : env.trailerOk <;> cases h5 : env.verifyOk <;> cases h6 : env.pullOk <;> cases h7 : env.syncOk <;>
+    simp [good, h1, h2, h3, h4, h5, h6, h7] at h <;>
+    simp [canonical, StepFacts.of, interp, Run.pre, cleanup, h1, h2, h3, h4, h5, h6, h7, List.getLast?_append, List.getLast?_cons]
 
 /-! ### the environment of a script vs the specification `expected` -/
 
@@ -275,7 +275,59 @@ def streamContent (p : Puller) (s : Script) (codec : Codec) : Option Bytes :=
 
 theorem expected_eq (p : Puller) (s : Script) (codec : Codec) :
     expected p s codec =
-      if s.openOk && tagsOk p s && (!p.verifies || s.verifyOk) && s.renameOk then streamContent p s codec else none := rfl
+      if s.openOk && tagsOk p s && (!p.verifies || s.verifyOk) && s.renameOk && s.syncOk then
+        (streamContent p s codec).bind (fit s.writeFault) else none := by
+  unfold expected streamContent
+  split
+  · cases payloadN (if p.usesWriteFile then s.stop else none) s.wire with
+    | none => rfl
+    | some wb =>
+      simp only []
+      cases (if (p.decodes && s.comp == Comp.zstd) = true then codec.dec wb else some wb) with
+      | none => rfl
+      | some lg =>
+        simp only []
+        split
+        · split <;> rfl
+        · rfl
+  · rfl
+
+theorem limitWrites_fits (k : Nat) (ws : List Bytes) (h : ws.flatten.length ≤ k) :
+    limitWrites (some k) ws = (ws, true) := by
+  induction ws generalizing k with
+  | nil => rfl
+  | cons w r ih =>
+    have hl : (w :: r).flatten.length = w.length + r.flatten.length := by
+      rw [List.flatten_cons, List.length_append]
+    rw [hl] at h
+    unfold limitWrites
+    rw [if_pos (by omega), ih (k - w.length) (by omega)]
+
+theorem limitWrites_over (k : Nat) (ws : List Bytes) (h : k < ws.flatten.length) :
+    (limitWrites (some k) ws).2 = false := by
+  induction ws generalizing k with
+  | nil => simp at h
+  | cons w r ih =>
+    have hl : (w :: r).flatten.length = w.length + r.flatten.length := by
+      rw [List.flatten_cons, List.length_append]
+    rw [hl] at h
+    unfold limitWrites
+    by_cases hw : w.length ≤ k
+    · rw [if_pos hw]; exact ih (k - w.length) (by omega)
+    · rw [if_neg hw]
+
+theorem limitWrites_spec (lim : Option Nat) (ws : List Bytes) :
+    match fit lim ws.flatten with
+    | some _ => limitWrites lim ws = (ws, true)
+    | none => (limitWrites lim ws).2 = false := by
+  cases lim with
+  | none => simp [fit, limitWrites]
+  | some k =>
+    by_cases h : ws.flatten.length ≤ k
+    · have : fit (some k) ws.flatten = some ws.flatten := if_pos h
+      rw [this]; exact limitWrites_fits k ws h
+    · have : fit (some k) ws.flatten = none := if_neg h
+      rw [this]; exact limitWrites_over k ws (by omega)
 
 /-- The gates that depend on the stream: copy, last-seen / pull result, trailer length. -/
 def streamGood (env : Env) (p : Puller) : Bool :=
@@ -287,15 +339,21 @@ def streamGood (env : Env) (p : Puller) : Bool :=
     | .trailerAsync => env.trailerOk && env.pullOk)
 
 theorem good_eq (env : Env) (p : Puller) :
-    good env p = (streamGood env p && (!p.verifies || env.verifyOk) && env.renameOk) := by
+    good env p = (streamGood env p && (!p.verifies || env.verifyOk) && env.renameOk && env.syncOk) := by
   cases p <;> simp [good, streamGood, Puller.verifies] <;>
     cases env.copyOk <;> cases env.renameOk <;> cases env.lastSeen <;> cases env.trailerOk <;>
-    cases env.verifyOk <;> cases env.pullOk <;> rfl
+    cases env.verifyOk <;> cases env.pullOk <;> cases env.syncOk <;> rfl
+
+theorem streamGood_envOf (p : Puller) (s : Script) (codec : Codec) :
+    streamGood (envOf p s codec) p =
+      (streamGood (envOf0 p s codec) p && (limitWrites s.writeFault (envOf0 p s codec).writes).2) := by
+  cases p <;> simp [streamGood, envOf] <;>
+    cases (envOf0 _ s codec).copyOk <;> cases (limitWrites s.writeFault (envOf0 _ s codec).writes).2 <;> simp
 
 theorem env_stream (p : Puller) (s : Script) (codec : Codec) :
     match streamContent p s codec with
-    | some c => streamGood (envOf p s codec) p = true ∧ (envOf p s codec).writes.flatten = c
-    | none => streamGood (envOf p s codec) p = false := by
+    | some c => streamGood (envOf0 p s codec) p = true ∧ (envOf0 p s codec).writes.flatten = c
+    | none => streamGood (envOf0 p s codec) p = false := by
   have hp := pulled_eq p s
   have hs := syncPullN_payload (if p.usesWriteFile then s.stop else none) s.wire
   unfold streamContent
@@ -310,11 +368,11 @@ theorem env_stream (p : Puller) (s : Script) (codec : Codec) :
         cases ha : p.isAsync with
         | true => exact Or.inr rfl
         | false => left; simp [decoded, ha, hok, decodeStream_srcErr]
-      cases p <;> simp_all [streamGood, envOf, Puller.isAsync]
+      cases p <;> simp_all [streamGood, envOf0, Puller.isAsync]
     | true =>
       have hls : (pulled p s).lastSeen = false := by simpa [hok] using hs
       cases hw : p.usesWriteFile with
-      | true => cases p <;> simp_all [streamGood, envOf, Puller.usesWriteFile]
+      | true => cases p <;> simp_all [streamGood, envOf0, Puller.usesWriteFile]
       | false =>
         have := syncPull_ok_lastSeen s.wire (by rw [hp, hw] at hok; simpa using hok)
         rw [hp, hw] at hls
@@ -338,37 +396,37 @@ theorem env_stream (p : Puller) (s : Script) (codec : Codec) :
       simp only [hz, Bool.false_eq_true, if_false] at hd ⊢
       cases ht : p.hasTrailer with
       | false =>
-        cases p <;> simp_all [streamGood, envOf, Puller.hasTrailer]
+        cases p <;> simp_all [streamGood, envOf0, Puller.hasTrailer]
       | true =>
         have hsp := Hold.run_spec s.trailer (pulled p s).bodies
         have hit := Hold.intoTrailer_isSome s.trailer (pulled p s).bodies
         rw [h2] at hsp hit
         by_cases hle : s.trailer ≤ wb.length
         · simp only [if_true, if_pos hle]
-          cases p <;> simp_all [streamGood, envOf, Puller.hasTrailer]
+          cases p <;> simp_all [streamGood, envOf0, Puller.hasTrailer]
         · simp only [if_true, if_neg hle]
-          cases p <;> simp_all [streamGood, envOf, Puller.hasTrailer]
+          cases p <;> simp_all [streamGood, envOf0, Puller.hasTrailer]
     | true =>
       simp only [hz, if_true] at hd ⊢
       cases hdec : codec.dec wb with
       | none =>
         simp only [hdec] at hd ⊢
-        cases p <;> simp_all [streamGood, envOf]
+        cases p <;> simp_all [streamGood, envOf0]
       | some lg =>
         simp only [hdec] at hd ⊢
         cases ht : p.hasTrailer with
         | false =>
-          cases p <;> simp_all [streamGood, envOf, Puller.hasTrailer]
+          cases p <;> simp_all [streamGood, envOf0, Puller.hasTrailer]
         | true =>
           have hsp := Hold.run_spec s.trailer [lg]
           have hit := Hold.intoTrailer_isSome s.trailer [lg]
           simp only [List.flatten_cons, List.flatten_nil, List.append_nil] at hsp hit
           by_cases hle : s.trailer ≤ lg.length
           · simp only [if_true, if_pos hle]
-            cases p <;> simp_all [streamGood, envOf, Puller.hasTrailer]
+            cases p <;> simp_all [streamGood, envOf0, Puller.hasTrailer]
           · simp only [if_true, if_neg hle]
             have hlt : lg.length < s.trailer := by omega
-            cases p <;> simp_all [streamGood, envOf, Puller.hasTrailer]
+            cases p <;> simp_all [streamGood, envOf0, Puller.hasTrailer]
 
 /-- A non-failing script: the run is exactly create, the writes, flush, fsync, close, rename, and the
 writes concatenate to the expected content. -/
@@ -380,15 +438,33 @@ theorem run_of_expected_some (p : Puller) (s : Script) (codec : Codec) (c : Byte
   split at h
   · rename_i hg
     have hst := env_stream p s codec
-    rw [h] at hst
-    simp only [Bool.and_eq_true] at hg
-    obtain ⟨⟨⟨ho, ht⟩, hv⟩, hr⟩ := hg
-    refine ⟨?_, hst.2⟩
-    unfold run
-    rw [if_pos (by simp [ho, ht])]
-    apply interp_good
-    rw [good_eq, hst.1]
-    simpa [envOf, hr] using hv
+    cases hsc : streamContent p s codec with
+    | none => rw [hsc] at h; cases h
+    | some c0 =>
+      rw [hsc] at h hst
+      simp only [Option.bind_some] at h
+      have hl := limitWrites_spec s.writeFault (envOf0 p s codec).writes
+      rw [hst.2, h] at hl
+      simp only at hl
+      have hc : c0 = c := by
+        unfold fit at h
+        cases hwf : s.writeFault with
+        | none => rw [hwf] at h; simpa using h
+        | some k => rw [hwf] at h; simp only at h; split at h <;> simp_all
+      subst hc
+      simp only [Bool.and_eq_true] at hg
+      obtain ⟨⟨⟨⟨ho, ht⟩, hv⟩, hr⟩, hs⟩ := hg
+      have hw : (envOf p s codec).writes = (envOf0 p s codec).writes := by simp [envOf, hl]
+      refine ⟨?_, by rw [hw]; exact hst.2⟩
+      unfold run
+      rw [if_pos (by simp [ho, ht])]
+      apply interp_good
+      rw [good_eq, streamGood_envOf, hst.1, hl]
+      have e1 : (envOf p s codec).verifyOk = s.verifyOk := by simp [envOf, envOf0]
+      have e2 : (envOf p s codec).renameOk = s.renameOk := by simp [envOf, envOf0]
+      have e3 : (envOf p s codec).syncOk = s.syncOk := by simp [envOf, envOf0]
+      rw [e1, e2, e3, hr, hs]
+      simpa using hv
   · cases h
 
 /-- A failing script: `Err`, no rename anywhere, and the op list is empty (nothing was created) or
@@ -404,19 +480,29 @@ theorem run_of_expected_none (p : Puller) (s : Script) (codec : Codec)
   by_cases hg : (s.openOk && tagsOk p s) = true
   · rw [if_pos hg]
     have hb : good (envOf p s codec) p = false := by
-      rw [good_eq]
+      rw [good_eq, streamGood_envOf]
       rw [expected_eq] at h
       have hst := env_stream p s codec
+      have e1 : (envOf p s codec).verifyOk = s.verifyOk := by simp [envOf, envOf0]
+      have e2 : (envOf p s codec).renameOk = s.renameOk := by simp [envOf, envOf0]
+      have e3 : (envOf p s codec).syncOk = s.syncOk := by simp [envOf, envOf0]
+      rw [e1, e2, e3]
       cases hsc : streamContent p s codec with
       | none => rw [hsc] at hst; simp [hst]
       | some c =>
-        rw [hsc] at h
-        have : (s.openOk && tagsOk p s && (!p.verifies || s.verifyOk) && s.renameOk) = false := by
-          cases hx : (s.openOk && tagsOk p s && (!p.verifies || s.verifyOk) && s.renameOk)
-          · rfl
-          · rw [hx] at h; simp at h
-        rw [hg] at this
-        cases hv : (!p.verifies || s.verifyOk) <;> cases hr : s.renameOk <;> simp_all [envOf]
+        rw [hsc] at h hst
+        simp only [Option.bind_some] at h
+        cases hx : (s.openOk && tagsOk p s && (!p.verifies || s.verifyOk) && s.renameOk && s.syncOk) with
+        | false =>
+          rw [hg] at hx
+          cases hv : (!p.verifies || s.verifyOk) <;> cases hr : s.renameOk <;> cases hs : s.syncOk <;> simp_all
+        | true =>
+          rw [hx] at h
+          simp only [if_true] at h
+          have hl := limitWrites_spec s.writeFault (envOf0 p s codec).writes
+          rw [hst.2, h] at hl
+          simp only at hl
+          simp [hl]
     obtain ⟨a, b, c, d, e⟩ := interp_bad (envOf p s codec) p hb
     exact ⟨a, Or.inr ⟨b, d, e⟩, c⟩
   · rw [if_neg hg]
